@@ -586,6 +586,6 @@ pub fn run(env: &Env) -> i32 {
         "C10-renamed-type-in-abstract",
         probe("scalar DateTime\ntype Date { a: Int }\nunion U = Date\ntype Query { u: U d: DateTime }", vec![("DateTime", "Date")]),
     );
-    rep.campaign("schemas", env.cases(400, 30_000), (300, 1400), case_fn);
+    rep.campaign("schemas", env.cases(1_500, 30_000), (300, 1400), case_fn);
     rep.finish()
 }
